@@ -12,7 +12,6 @@ use crate::{
     infra::{AbortVerdict, EvidenceSpec, Prop, Sweep, Tier, violation},
 };
 use serde_json::json;
-use std::time::Instant;
 
 pub struct C17;
 
@@ -109,7 +108,8 @@ const VARIANT_NAMES: [&str; VARIANTS] =
     ["well-formed", "suffix-dropped", "last-1-dropped", "last-2-dropped", "last-3-dropped", "wrong-token-at-1/4", "wrong-token-at-1/2", "wrong-token-at-3/4"];
 
 fn measure(text: &str) -> Result<(u64, f64, bool), String> {
-    let start = Instant::now();
+    // CPU time of this thread, not wall-clock time: the verdict must not depend on the machine's load
+    let start = crate::infra::thread_cpu_s();
     let a0 = allocations();
     let r = guard(|| {
         let tokens = crate::tokenizer::tokenize(None, text);
@@ -129,7 +129,7 @@ fn measure(text: &str) -> Result<(u64, f64, bool), String> {
     });
     let work = allocations() - a0;
     match r {
-        Ok(accepted) => Ok((work, start.elapsed().as_secs_f64(), accepted)),
+        Ok(accepted) => Ok((work, crate::infra::thread_cpu_s() - start, accepted)),
         Err(m) => Err(m),
     }
 }
@@ -188,7 +188,7 @@ fn ladder_sweep(tier: Tier) -> Sweep {
                             violation(
                                 "time-cap",
                                 &format!("family {}/{} {} n={n} ({} tokens)", ws[a].name, ws[b].name, VARIANT_NAMES[v], toks.len()),
-                                &format!("tokenize+parse within {cap_s} s"),
+                                &format!("tokenize+parse within {cap_s} s of CPU time"),
                                 &format!("{secs:.1} s, {work} allocations"),
                             );
                             return;
@@ -351,7 +351,7 @@ fn group_sweep(tier: Tier) -> Sweep {
                             count!("groups_rejected");
                         }
                         if secs > cap_s {
-                            violation("time-cap", &format!("{} ({} tokens)", name(n), toks.len()), &format!("tokenize+parse within {cap_s} s"), &format!("{secs:.1} s, {work} allocations"));
+                            violation("time-cap", &format!("{} ({} tokens)", name(n), toks.len()), &format!("tokenize+parse within {cap_s} s of CPU time"), &format!("{secs:.1} s, {work} allocations"));
                             return;
                         }
                         let t = toks.len() as u64;
@@ -386,6 +386,77 @@ fn group_sweep(tier: Tier) -> Sweep {
     })
 }
 
+// Lexical families: one long token or one long run of layout, where the parser sees a handful of
+// tokens and all the length is the tokenizer's. T is the length in characters.
+const LEXICAL: [(&str, &str, &str, &str, bool); 14] = [
+    // name, prefix, repeated unit, suffix, small (families whose diagnostics quote the whole line n times)
+    ("identifier", "", "a", "", false),
+    ("identifier of 2-byte letters", "", "é", "", false),
+    ("integer literal", "", "7", "", false),
+    ("comment", "x #", "c", "\n", false),
+    ("comment of 4-byte characters at end of file", "x #", "𝔘", "", false),
+    ("spaces", "x", " ", "x", false),
+    ("tabs before a line break", "x", "\t", "\nx", false),
+    ("line breaks", "x", "\n", "x", false),
+    ("CRLF line breaks", "x", "\r\n", "x", false),
+    ("comment lines", "x", "# c\n", "x", false),
+    ("definitions one per line", "", "a = 1\n", "a", false),
+    ("stray symbols on one line", "", "$", "", true),
+    ("stray symbols one per line", "", "$\n", "", true),
+    ("operators without operands", "", "+ ", "", true),
+];
+
+fn lexical_sweep(tier: Tier) -> Sweep {
+    let max_n = tier.pick(4096, 65536);
+    let max_small = tier.pick(1024, 4096);
+    let cap_s = tier.pick(8.0, 40.0);
+    Sweep::new(
+        "lexical families (one long token or layout run), ladder of sizes",
+        LEXICAL.len() as u64,
+        move |idx| {
+            let (name, pre, unit, post, small) = LEXICAL[idx as usize];
+            count!("evaluations");
+            count!("lexical_families");
+            let mut n = 1;
+            while n <= if small { max_small } else { max_n } {
+                let text = format!("{pre}{}{post}", unit.repeat(n));
+                let t = text.chars().count() as u64;
+                count!("rungs");
+                crate::infra::max_named("max.lexical_characters", t);
+                match measure(&text) {
+                    Err(m) => {
+                        violation("parse-panic", &format!("lexical family {name} n={n}"), "no panic", &m);
+                        return;
+                    }
+                    Ok((work, secs, _)) => {
+                        if secs > cap_s {
+                            violation("time-cap", &format!("lexical family {name} n={n} ({t} characters)"), &format!("tokenize+parse within {cap_s} s of CPU time"), &format!("{secs:.1} s, {work} allocations"));
+                            return;
+                        }
+                        if work > 40 * t * t + 200_000 {
+                            violation("work-envelope", &format!("lexical family {name} n={n} ({t} characters)"), "allocations <= 40 * characters^2 + 200000", &format!("{work} allocations"));
+                            return;
+                        }
+                        if t >= 100 {
+                            crate::infra::max_named("max.lexical_work_per_character_x1000", work * 1000 / t);
+                        }
+                    }
+                }
+                n *= 2;
+            }
+            count!("nontrivial");
+        },
+        move |idx| format!("lexical family {}", LEXICAL[idx as usize].0),
+    )
+    .with_timeout(tier.pick(30, 200))
+    .with_post_abort(|_idx, kind| AbortVerdict::Violation {
+        sub: "no-termination-within-cap".to_owned(),
+        input: String::new(),
+        expected: "every rung of the ladder finishes within the cap".to_owned(),
+        actual: format!("worker ended abnormally: {kind}"),
+    })
+}
+
 impl Prop for C17 {
     fn id(&self) -> &'static str {
         "C17"
@@ -394,12 +465,12 @@ impl Prop for C17 {
         2048
     }
     fn sweeps(&self, tier: Tier) -> Vec<Sweep> {
-        vec![ladder_sweep(tier), group_sweep(tier)]
+        vec![ladder_sweep(tier), group_sweep(tier), lexical_sweep(tier)]
     }
     fn evidence(&self, tier: Tier) -> EvidenceSpec {
         EvidenceSpec {
             level: "exploration",
-            rule: "all input families of period 1 and 2 over 28 syntactic wrappers (parentheses, sums left/right, differences, negation, products, application left/right, comparison, let / annotated let / let nested in a definition, if nested in the else / then / condition position, the four lambda forms and the annotation position, pi, arrows left/right, and application / sum / product chains ending in two parenthesised operands nested through either of them), i.e. 28 + 756 families, each in 8 variants (well formed; suffix dropped; last 1, 2, 3 tokens dropped; a wrong token planted at 1/4, 1/2, 3/4), on the ladder n = 1, 2, 4, .., 512 (quick) / 8192 (thorough); the real tokenize+parse is run on a 2 GiB stack and its heap allocations counted; every rung must finish within the cap, every rung must satisfy allocations <= 40 tokens^2 + 200000 (measured on the unchanged tree: <= 2 tokens^2), and well-formed variants must satisfy work(2n) <= 6 work(n) from n >= 64 (measured: 2.00). Second sweep, long definition sequences as reference graphs: groups of n = 1, 2, 4, .., 256 (quick) / 2048 (thorough) definitions where definition i mentions d(i+o) for every o of an offset set, for all 31 non-empty offset sets within {-2,-1,+1,+2,+3}, three kind patterns (all lambdas; a non-value head then lambdas; all non-values), body d0 or the last definition, three variants (complete, last token dropped, wrong token in the middle) — 558 families x variants under the same time cap and envelope (measured: <= 0.7 tokens^2). evaluations = families x variants; non-trivial = those whose whole ladder was measured".to_owned(),
+            rule: "all input families of period 1 and 2 over 28 syntactic wrappers (parentheses, sums left/right, differences, negation, products, application left/right, comparison, let / annotated let / let nested in a definition, if nested in the else / then / condition position, the four lambda forms and the annotation position, pi, arrows left/right, and application / sum / product chains ending in two parenthesised operands nested through either of them), i.e. 28 + 756 families, each in 8 variants (well formed; suffix dropped; last 1, 2, 3 tokens dropped; a wrong token planted at 1/4, 1/2, 3/4), on the ladder n = 1, 2, 4, .., 512 (quick) / 8192 (thorough); the real tokenize+parse is run on a 2 GiB stack and its heap allocations counted; every rung must finish within the cap (CPU time of the parsing thread, so machine load does not matter), every rung must satisfy allocations <= 40 tokens^2 + 200000 (measured on the unchanged tree: <= 2 tokens^2), and well-formed variants must satisfy work(2n) <= 6 work(n) from n >= 64 (measured: 2.00). Second sweep, long definition sequences as reference graphs: groups of n = 1, 2, 4, .., 256 (quick) / 2048 (thorough) definitions where definition i mentions d(i+o) for every o of an offset set, for all 31 non-empty offset sets within {-2,-1,+1,+2,+3}, three kind patterns (all lambdas; a non-value head then lambdas; all non-values), body d0 or the last definition, three variants (complete, last token dropped, wrong token in the middle) — 558 families x variants under the same time cap and envelope (measured: <= 0.7 tokens^2). Third sweep, 14 lexical families (one long identifier, literal, comment, run of blanks / tabs / line breaks / CRLF / comment lines, one definition per line, stray symbols, operators without operands) to 4096 / 65536 repetitions (1024 / 4096 where every diagnostic quotes the line), with characters in the place of tokens. evaluations = families x variants; non-trivial = those whose whole ladder was measured".to_owned(),
             assumptions: vec![
                 "a growth law on a finite ladder is evidence of the law, not a proof for all n".to_owned(),
                 "heap allocations are proportional to parse-function executions (every constructed term, cache insert and error closure allocates)".to_owned(),
